@@ -140,7 +140,9 @@ int main (int argc, char **argv) {
 	if (ok && cases > 0) {
 		char params[120]; snprintf (params, sizeof params, "seed=%lu max_success=%ld", seed, cases);
 		setenv ("RC_PARAMS", params, 1);
+		bool failed_once = false;   // no shrinking: a case is seven small numbers, and every failing candidate may cost 3 watchdog periods
 		ok = rc::check ("every deadline value is handled", [&] () {
+			if (failed_once) return;
 			Case c;
 			c.lib = *rc::gen::inRange (0, 2); c.entry = *rc::gen::inRange (0, 9);
 			int kind = *rc::gen::inRange (0, 6);
@@ -160,7 +162,7 @@ int main (int argc, char **argv) {
 			if (c.cls != NEAR) { nontrivial++; distinct.insert (case_str (c)); }
 			if (samples.size () < 5 && evaluations % 23 == 0) samples.push_back (case_str (c));
 			bool pass = judge (c);
-			if (!pass) { fail = g_why; failc = c; }
+			if (!pass) { fail = g_why; failc = c; failed_once = true; }
 			RC_ASSERT (pass);
 		});
 	}
